@@ -259,6 +259,8 @@ def check_xoroshiro(ctx):
                   full = (full << 64) | w
               exp = full >> (64 * nw - bw)
               ctx.evaluations += 1
+              if sim.inspect('rdy') and sim.inspect('rand') == exp and rng.random() < 0.5:
+                  sim.step({'load': 0, 'req': 0, 'seed': sd})      # an idle cycle: ready and the number are held
               if not sim.inspect('rdy') or sim.inspect('rand') != exp:
                   ctx.violation('xoroshiro', 'prng_xoroshiro128(bitwidth=%d) request %d: ready=%d rand=%x, xoroshiro128+ gives %x' % (
                       bw, rq, sim.inspect('rdy'), sim.inspect('rand'), exp), {'kind': 'xoroshiro', 'bitwidth': bw, 'seed': hex(sd), 'request': rq, 'phase': phase})
@@ -369,6 +371,14 @@ def check_trivium(ctx):
                 ctx.violation('trivium', 'csprng_trivium(bitwidth=%d, bits_per_cycle=%d) request %d: rand=%x, Trivium gives %x' % (
                     bw, bpc, rq, sim.inspect('rand'), exp), {'kind': 'trivium', 'bitwidth': bw, 'bits_per_cycle': bpc, 'seed': hex(sd)})
                 return
+            # the number stays available while the generator idles
+            for _ in range(rng.choice([1, 2])):
+                sim.step({'load': 0, 'req': 0, 'seed': sd})
+                if sim.inspect('rand') != exp or not sim.inspect('rdy'):
+                    ctx.violation('trivium-hold', 'csprng_trivium(bitwidth=%d, bits_per_cycle=%d) request %d: in an idle cycle after ready, ready=%d rand=%x '
+                                  '(the generated number is %x)' % (bw, bpc, rq, sim.inspect('rdy'), sim.inspect('rand'), exp),
+                                  {'kind': 'trivium', 'bitwidth': bw, 'bits_per_cycle': bpc, 'seed': hex(sd)})
+                    return
         ctx.distinct.add('trivium%d/%d' % (bw, bpc))
 
 
